@@ -1,6 +1,7 @@
 (* C05 - lemmas and proofs. *)
 From ASV Require Import Base Loc.
 From ASV.C05 Require Import Model.
+From ASV.C04 Require Proofs.
 From Coq Require Import Lia ZifyBool Permutation Setoid.
 
 (* ---------- sets of protoclusters as lists: membership by id ---------- *)
@@ -516,4 +517,852 @@ Proof.
   destruct (create_candidates w_protos (Some 12)) as [out|k] eqn:E; vm_compute in E; [|discriminate E].
   inversion E as [E']. eexists. eexists. split; [reflexivity|]. split; [left; reflexivity|].
   split; vm_compute; reflexivity.
+Qed.
+
+(* ====================================================================================== *)
+(* members of every candidate are protoclusters that were supplied; every candidate's      *)
+(* location is connect_locations of its members' locations                                 *)
+(* ====================================================================================== *)
+Definition allin (P : list proto) (G : list (list proto)) : Prop := forall g x, In g G -> In x g -> In x P.
+
+Lemma allin_app : forall P A B, allin P A -> allin P B -> allin P (A ++ B).
+Proof. intros P A B HA HB g x Hg Hx. apply in_app_or in Hg. destruct Hg as [Hg|Hg]; [exact (HA g x Hg Hx)|exact (HB g x Hg Hx)]. Qed.
+
+Lemma In_set_insert : forall (x y : proto) l, In y (set_insert x l) -> y = x \/ In y l.
+Proof.
+  intros x y. induction l as [|z zs IH]; cbn [set_insert]; intro H.
+  - destruct H as [H|[]]. left. symmetry. exact H.
+  - destruct (pid x <? pid z).
+    + destruct H as [H|H]; [left; symmetry; exact H|right; exact H].
+    + destruct (pid x =? pid z).
+      * right. exact H.
+      * destruct H as [H|H]; [right; left; exact H|]. destruct (IH H) as [A|A]; [left; exact A|right; right; exact A].
+Qed.
+
+Lemma In_iter : forall l y, In y (iter l) -> In y l.
+Proof.
+  unfold iter. induction l as [|x xs IH]; cbn [fold_right]; intros y H; [destruct H|].
+  apply In_set_insert in H. destruct H as [H|H]; [left; symmetry; exact H|right; apply IH; exact H].
+Qed.
+
+Lemma In_union : forall a b x, In x (union a b) -> In x a \/ In x b.
+Proof.
+  intros a b x H. unfold union in H. apply in_app_or in H. destruct H as [H|H]; [left; exact H|right].
+  apply filter_In in H. exact (proj1 H).
+Qed.
+
+Lemma In_diff : forall a b x, In x (diff a b) -> In x a.
+Proof. intros a b x H. unfold diff in H. apply filter_In in H. exact (proj1 H). Qed.
+
+Lemma In_set_add : forall x l y, In y (set_add x l) -> y = x \/ In y l.
+Proof.
+  intros x l y H. unfold set_add in H. destruct (pmem x l); [right; exact H|].
+  apply in_app_or in H. destruct H as [H|[H|[]]]; [right; exact H|left; symmetry; exact H].
+Qed.
+
+Lemma In_fold_set_add : forall l acc y, In y (fold_left (fun a p => set_add p a) l acc) -> In y acc \/ In y l.
+Proof.
+  induction l as [|x xs IH]; intros acc y H; cbn [fold_left] in H; [left; exact H|].
+  destruct (IH _ _ H) as [A|A]; [|right; right; exact A].
+  apply In_set_add in A. destruct A as [A|A]; [right; left; symmetry; exact A|left; exact A].
+Qed.
+
+Lemma In_fold_set_add' : forall l acc y, In y (fold_left (fun s x => set_add x s) l acc) -> In y acc \/ In y l.
+Proof. exact In_fold_set_add. Qed.
+
+Lemma In_ordered_list : forall g x, In x (ordered_list g) <-> In x g.
+Proof. intros g x. unfold ordered_list. rewrite !sort_by_in. tauto. Qed.
+
+Lemma In_ordered_set : forall g x, In x (ordered_set g) -> In x g.
+Proof. intros g x H. unfold ordered_set in H. apply (proj1 (In_ordered_list _ _)) in H. apply In_iter. exact H. Qed.
+
+Lemma In_skipn' : forall A n (l : list A) x, In x (skipn n l) -> In x l.
+Proof. intros A n l x H. rewrite <- (firstn_skipn n l). apply in_or_app. right. exact H. Qed.
+Lemma In_firstn' : forall A n (l : list A) x, In x (firstn n l) -> In x l.
+Proof. intros A n l x H. rewrite <- (firstn_skipn n l). apply in_or_app. left. exact H. Qed.
+
+Lemma last_opt_In : forall A (l : list A) y, last_opt l = Some y -> In y l.
+Proof.
+  intros A l y H. unfold last_opt in H. destruct (rev l) as [|z zs] eqn:E; [discriminate H|].
+  inversion H; subst. apply in_rev. rewrite E. left. reflexivity.
+Qed.
+
+Lemma first_last_In : forall A (l : list A) x y, first_last l = Some (x, y) -> In x l /\ In y l.
+Proof.
+  intros A l x y H. unfold first_last in H. destruct l as [|a r]; [discriminate H|].
+  destruct (last_opt (a :: r)) as [z|] eqn:E; [|discriminate H]. inversion H; subst.
+  split; [left; reflexivity|apply last_opt_In; exact E].
+Qed.
+
+Lemma built_In : forall G h, built G h -> forall x, In x h -> exists g, In g G /\ In x g.
+Proof.
+  intros G h Hb. induction Hb as [g Hg|a b Ha IHa Hb IHb Hd]; intros x Hx.
+  - exists g. split; assumption.
+  - apply In_union in Hx. destruct Hx as [Hx|Hx]; [apply IHa|apply IHb]; exact Hx.
+Qed.
+
+Lemma merge_sets_allin : forall P G, allin P G -> allin P (merge_sets G).
+Proof.
+  intros P G H g x Hg Hx. unfold merge_sets in Hg. apply in_map_iff in Hg. destruct Hg as [h [He Hh]]. subst g.
+  apply In_ordered_set in Hx.
+  pose proof (merge_core_components G) as HC. cbv zeta in HC. destruct HC as [_ [_ [_ [HB _]]]].
+  rewrite Forall_forall in HB.
+  destruct (built_In G h (HB h Hh) x Hx) as [g0 [Hg0 Hx0]]. exact (H g0 x Hg0 Hx0).
+Qed.
+
+Lemma pairs_rel_In : forall A (rel : A -> A -> bool) l x y,
+  In (x, y) (pairs_rel rel l) -> In x l /\ In y l /\ rel x y = true.
+Proof.
+  intros A rel. induction l as [|z r IH]; intros x y H; cbn [pairs_rel] in H; [destruct H|].
+  apply in_app_or in H. destruct H as [H|H].
+  - apply in_map_iff in H. destruct H as [y0 [He Hy]]. inversion He; subst. apply filter_In in Hy.
+    destruct Hy as [Hy Hr]. split; [left; reflexivity|]. split; [right; exact Hy|exact Hr].
+  - destruct (IH x y H) as [A1 [A2 A3]]. split; [right; exact A1|]. split; [right; exact A2|exact A3].
+Qed.
+
+Lemma mapM_In : forall A B (f : A -> res B) l r, mapM f l = Ok r ->
+  forall y, In y r -> exists x, In x l /\ f x = Ok y.
+Proof.
+  intros A B f. induction l as [|a l IH]; intros r H y Hy; cbn [mapM] in H.
+  - inversion H; subst. destruct Hy.
+  - destruct (f a) as [b|k] eqn:Ea; cbn [bind] in H; [|discriminate H].
+    destruct (mapM f l) as [bs|k] eqn:El; cbn [bind] in H; [|discriminate H].
+    inversion H; subst. destruct Hy as [Hy|Hy].
+    + subst. exists a. split; [left; reflexivity|exact Ea].
+    + destruct (IH bs eq_refl y Hy) as [x [Hx Hf]]. exists x. split; [right; exact Hx|exact Hf].
+Qed.
+
+Lemma pair_groups_allin : forall (P : list proto) (prs : list (proto * proto)),
+  (forall x y, In (x, y) prs -> In x P /\ In y P) -> allin P (map (fun xy => [fst xy; snd xy]) prs).
+Proof.
+  intros P prs H g x Hg Hx. apply in_map_iff in Hg. destruct Hg as [[a b] [He Hab]]. subst g. cbn [fst snd] in Hx.
+  destruct (H a b Hab) as [Ha Hb]. destruct Hx as [Hx|[Hx|[]]]; subst; assumption.
+Qed.
+
+Lemma contained_until_In : forall core limit cl x, In x (contained_until core limit cl) -> In x cl.
+Proof.
+  intros core limit. induction cl as [|c r IH]; intros x H; cbn [contained_until] in H; [destruct H|].
+  destruct (limit <? lstart (ploc c)); [destruct H|].
+  destruct (contains core (pcore c)).
+  - destruct H as [H|H]; [left; exact H|right; exact (IH x H)].
+  - right. exact (IH x H).
+Qed.
+
+Lemma hybrid_extend_In : forall w clusters group r, hybrid_extend w clusters group = Ok r ->
+  forall x, In x r -> In x group \/ In x clusters.
+Proof.
+  intros w clusters group r H x Hx. unfold hybrid_extend in H.
+  destruct (connect_locations (map pcore group) w) as [core|k]; cbn [bind] in H; [|discriminate H].
+  inversion H; subst; clear H. apply in_app_or in Hx. destruct Hx as [Hx|Hx]; [left; exact Hx|right].
+  apply in_app_or in Hx. destruct Hx as [Hx|Hx].
+  - apply contained_until_In in Hx. apply In_skipn' in Hx. exact Hx.
+  - destruct (is_compound core); [apply contained_until_In in Hx; exact Hx|destruct Hx].
+Qed.
+
+Lemma find_hybrids_allin : forall clusters w groups un,
+  find_hybrids clusters w = Ok (groups, un) -> allin clusters groups /\ incl un clusters.
+Proof.
+  intros clusters w groups un H. unfold find_hybrids in H. cbv zeta in H.
+  match type of H with bind ?e _ = _ => destruct e as [extended|k] eqn:EM end; cbn [bind] in H; [|discriminate H].
+  inversion H; subst; clear H. split.
+  - intros g x Hg Hx. apply in_map_iff in Hg. destruct Hg as [g0 [He Hg0]]. subst g. apply (proj1 (In_ordered_list _ _)) in Hx.
+    destruct (mapM_In _ _ _ _ _ EM g0 Hg0) as [m [Hm Hext]].
+    destruct (hybrid_extend_In _ _ _ _ Hext x Hx) as [A|A].
+    + refine (merge_sets_allin clusters _ _ m x Hm A). apply pair_groups_allin.
+      intros a b Hab. apply in_app_or in Hab. destruct Hab as [Hab|Hab].
+      * apply pairs_rel_In in Hab. destruct Hab as [Ha [Hb _]]. apply sort_by_in in Ha. apply sort_by_in in Hb.
+        split; assumption.
+      * destruct (first_last (sort_by core_key_lt clusters)) as [[f l]|] eqn:Efl; [|destruct Hab].
+        destruct (negb (pid f =? pid l) && defs_intersect f l); [|destruct Hab].
+        destruct Hab as [Hab|[]]. inversion Hab; subst. apply first_last_In in Efl. destruct Efl as [Ha Hb].
+        apply sort_by_in in Ha. apply sort_by_in in Hb. split; assumption.
+    + apply sort_by_in in A. apply In_iter in A. apply In_diff in A. exact A.
+  - intros x Hx. apply In_ordered_set in Hx. apply In_diff in Hx. apply In_diff in Hx. exact Hx.
+Qed.
+
+(* ---------- candidates ---------- *)
+Definition wfc (w : option Z) (c : cand) : Prop :=
+  cmem c <> [] /\ connect_locations (map ploc (cmem c)) w = Ok (cloc c).
+Definition good (P : list proto) (w : option Z) (c : cand) : Prop := wfc w c /\ incl (cmem c) P.
+
+Lemma mk_cand_wfc : forall w kind ms c, mk_cand w kind ms = Ok c -> wfc w c /\ cmem c = ms /\ ckind c = kind.
+Proof.
+  intros w kind ms c H. unfold mk_cand in H. destruct ms as [|m ms']; [discriminate H|].
+  destruct (connect_locations (map ploc (m :: ms')) w) as [l|k] eqn:El; cbn [bind] in H; [|discriminate H].
+  destruct (check_collection_loc l) as [u|k]; cbn [bind] in H; [|discriminate H].
+  inversion H; subst; clear H. cbn [cmem cloc ckind]. split; [split; [discriminate|exact El]|split; reflexivity].
+Qed.
+
+Lemma tset_values : forall k c t x, In x (tvalues (tset k c t)) -> x = c \/ In x (tvalues t).
+Proof.
+  intros k c. unfold tvalues. induction t as [|[k' c'] r IH]; intros x H; cbn [tset map snd In] in *.
+  - destruct H as [H|[]]. left. symmetry. exact H.
+  - destruct (key_eqb k k'); cbn [map snd In] in H.
+    + destruct H as [H|H]; [left; symmetry; exact H|right; right; exact H].
+    + destruct H as [H|H]; [right; left; exact H|]. destruct (IH x H) as [A|A]; [left; exact A|right; right; exact A].
+Qed.
+
+Lemma build_go_good : forall P w kind groups existing singles e s,
+  build_go w kind groups existing singles = Ok (e, s) ->
+  allin P groups -> (forall c, In c (tvalues existing) -> good P w c) -> incl singles P ->
+  (forall c, In c (tvalues e) -> good P w c) /\ incl s P.
+Proof.
+  intros P w kind. induction groups as [|group rest IH]; intros existing singles e s H HG HE HS; cbn [build_go] in H.
+  - inversion H; subst. split; assumption.
+  - destruct (negb ((kind =? K_SINGLE) || (1 <? zlen group))); [discriminate H|].
+    destruct (mk_cand w kind (ordered_list group)) as [candidate|k] eqn:Ec; cbn [bind] in H; [|discriminate H].
+    assert (HGr : allin P rest) by (intros g x Hg Hx; exact (HG g x (or_intror Hg) Hx)).
+    assert (Hgroup : incl group P) by (intros x Hx; exact (HG group x (or_introl eq_refl) Hx)).
+    assert (Hcand : good P w candidate).
+    { destruct (mk_cand_wfc _ _ _ _ Ec) as [A [B _]]. split; [exact A|]. rewrite B. intros x Hx.
+      apply Hgroup. apply In_ordered_list. exact Hx. }
+    destruct (tget (ckey candidate) existing) as [ex|] eqn:Et.
+    + pose proof (HE ex (tget_in _ _ _ Et)) as Hex.
+      destruct (is_empty (iter (diff group (iter (cmem ex))))) eqn:Eex.
+      * exact (IH _ _ _ _ H HGr HE HS).
+      * destruct (mk_cand w (ckind ex) (ordered_list (iter (cmem ex) ++ iter (diff group (iter (cmem ex))))))
+          as [replacement|k] eqn:Er; cbn [bind] in H; [|discriminate H].
+        apply (IH _ _ _ _ H HGr).
+        -- intros c Hc. apply tset_values in Hc. destruct Hc as [Hc|Hc]; [|exact (HE c Hc)]. subst c.
+           destruct (mk_cand_wfc _ _ _ _ Er) as [A [B _]]. split; [exact A|]. rewrite B. intros x Hx.
+           apply (proj1 (In_ordered_list _ _)) in Hx. apply in_app_or in Hx. destruct Hx as [Hx|Hx].
+           ++ apply In_iter in Hx. exact (proj2 Hex x Hx).
+           ++ apply In_iter in Hx. apply In_diff in Hx. exact (Hgroup x Hx).
+        -- intros x Hx. apply In_fold_set_add' in Hx. destruct Hx as [Hx|Hx]; [exact (HS x Hx)|].
+           apply In_iter in Hx. apply In_diff in Hx. exact (Hgroup x Hx).
+    + apply (IH _ _ _ _ H HGr); [|exact HS].
+      intros c Hc. apply tset_values in Hc. destruct Hc as [Hc|Hc]; [subst c; exact Hcand|exact (HE c Hc)].
+Qed.
+
+Lemma build_candidates_good : forall P w kind groups existing singles cs e s,
+  build_candidates w kind groups existing singles = Ok (cs, e, s) ->
+  allin P groups -> (forall c, In c (tvalues existing) -> good P w c) -> incl singles P ->
+  (forall c, In c cs -> good P w c) /\ (forall c, In c (tvalues e) -> good P w c) /\ incl s P.
+Proof.
+  intros P w kind groups existing singles cs e s H HG HE HS. unfold build_candidates in H.
+  destruct (build_go w kind groups existing singles) as [[e0 s0]|k] eqn:Eb; cbn [bind] in H; [|discriminate H].
+  inversion H; subst; clear H. destruct (build_go_good _ _ _ _ _ _ _ _ Eb HG HE HS) as [A B].
+  split; [|split; assumption]. intros c Hc. apply sort_by_in in Hc. exact (A c Hc).
+Qed.
+
+(* ---------- _find_interleaved ---------- *)
+Lemma with_cores_In : forall w cands cc, with_cores w cands = Ok cc -> forall ck, In ck cc -> In (fst ck) cands.
+Proof.
+  intros w cands cc H ck Hck. unfold with_cores in H. destruct (mapM_In _ _ _ _ _ H ck Hck) as [c [Hc Hf]].
+  destruct (ccore w c) as [k|e]; cbn [bind] in Hf; [|discriminate Hf]. inversion Hf; subst. exact Hc.
+Qed.
+
+Lemma core_pairs_from_In : forall c rest o, In o (core_pairs_from c rest) -> In o rest.
+Proof.
+  intros c. induction rest as [|a r IH]; intros o H; cbn [core_pairs_from] in H; [destruct H|].
+  destruct (lend (pcore c) <=? lstart (pcore a)); [destruct H|].
+  destruct (overlap (pcore c) (pcore a)).
+  - destruct H as [H|H]; [left; exact H|right; exact (IH o H)].
+  - right. exact (IH o H).
+Qed.
+
+Lemma core_pairs_In : forall l x y, In (x, y) (core_pairs l) -> In x l /\ In y l.
+Proof.
+  induction l as [|c r IH]; intros x y H; cbn [core_pairs] in H; [destruct H|].
+  apply in_app_or in H. destruct H as [H|H].
+  - apply in_map_iff in H. destruct H as [o [He Ho]]. inversion He; subst. apply core_pairs_from_In in Ho.
+    split; [left; reflexivity|right; exact Ho].
+  - destruct (IH x y H) as [A B]. split; right; assumption.
+Qed.
+
+Lemma cand_scan_In : forall rel limit cc ck, In ck (cand_scan rel limit cc) -> In ck cc.
+Proof.
+  intros rel limit. induction cc as [|a r IH]; intros ck H; cbn [cand_scan] in H; [destruct H|].
+  destruct (limit <? lstart (cloc (fst a))); [destruct H|].
+  destruct (rel a).
+  - destruct H as [H|H]; [left; exact H|right; exact (IH ck H)].
+  - right. exact (IH ck H).
+Qed.
+
+Lemma cand_scan_plain_In : forall rel limit cs c, In c (cand_scan_plain rel limit cs) -> In c cs.
+Proof.
+  intros rel limit. induction cs as [|a r IH]; intros c H; cbn [cand_scan_plain] in H; [destruct H|].
+  destruct (limit <? lstart (cloc a)); [destruct H|].
+  destruct (rel a).
+  - destruct H as [H|H]; [left; exact H|right; exact (IH c H)].
+  - right. exact (IH c H).
+Qed.
+
+Lemma cross_walk_In : forall core n l st cg found, cross_walk core n l st = (cg, found) ->
+  forall x, In x cg -> In x (fst st) \/ In x l.
+Proof.
+  intros core n. induction l as [|c r IH]; intros st cg found H x Hx; cbn [cross_walk] in H.
+  - subst st. left. exact Hx.
+  - destruct st as [cg0 found0]. destruct (negb (set_size found0 <? n)); [inversion H; subst; left; exact Hx|].
+    destruct (negb (overlap (pcore c) core)); [inversion H; subst; left; exact Hx|].
+    destruct (IH _ _ _ H x Hx) as [A|A]; [|right; right; exact A]. cbn [fst] in A.
+    apply In_set_add in A. destruct A as [A|A]; [right; left; symmetry; exact A|left; exact A].
+Qed.
+
+Lemma cross_core_group_In : forall crossing x, In x (cross_core_group crossing) ->
+  exists ck, In ck crossing /\ In x (cmem (fst ck)).
+Proof.
+  intros crossing x. unfold cross_core_group.
+  assert (G : forall l acc, In x (fold_left (fun acc ck => fold_left (fun a p => set_add p a)
+                      (filter (fun p => bridges (pcore p)) (cmem (fst ck))) acc) l acc) ->
+              In x acc \/ exists ck : cand * loc, In ck l /\ In x (cmem (fst ck))).
+  { induction l as [|ck r IH]; intros acc H; cbn [fold_left] in H; [left; exact H|].
+    destruct (IH _ H) as [A|[ck' [A B]]].
+    - apply In_fold_set_add in A. destruct A as [A|A]; [left; exact A|right]. apply filter_In in A.
+      exists ck. split; [left; reflexivity|exact (proj1 A)].
+    - right. exists ck'. split; [right; exact A|exact B]. }
+  intro H. destruct (G crossing [] H) as [[]|A]. exact A.
+Qed.
+
+Lemma find_cross_allin : forall P w cc unassigned groups found groups',
+  find_cross_origin_interleaved w cc unassigned groups = Ok (found, groups') ->
+  allin P groups -> incl unassigned P -> (forall ck, In ck cc -> incl (cmem (fst ck)) P) -> allin P groups'.
+Proof.
+  intros P w cc unassigned groups found groups' H HG HU HC. unfold find_cross_origin_interleaved in H.
+  destruct (is_empty unassigned || is_empty cc); [inversion H; subst; exact HG|].
+  destruct (is_empty (filter (fun ck : cand * loc => cand_core_crosses (snd ck)) cc)); [inversion H; subst; exact HG|].
+  destruct (connect_locations (map snd (filter (fun ck : cand * loc => cand_core_crosses (snd ck)) cc)) w) as [core|k];
+    cbn [bind] in H; [|discriminate H].
+  destruct (is_empty (cross_core_group (filter (fun ck : cand * loc => cand_core_crosses (snd ck)) cc))); [discriminate H|].
+  destruct (cross_walk core (zlen unassigned) (rev (tl unassigned))
+              (cross_core_group (filter (fun ck : cand * loc => cand_core_crosses (snd ck)) cc), [])) as [cg1 f1] eqn:E1.
+  destruct (cross_walk core (zlen unassigned) unassigned (cg1, f1)) as [cg found2] eqn:E2.
+  assert (Hcg : incl cg P).
+  { intros x Hx. destruct (cross_walk_In _ _ _ _ _ _ E2 x Hx) as [A|A]; [|exact (HU x A)]. cbn [fst] in A.
+    destruct (cross_walk_In _ _ _ _ _ _ E1 x A) as [B|B].
+    - cbn [fst] in B. apply cross_core_group_In in B. destruct B as [ck [B1 B2]]. apply filter_In in B1.
+      exact (HC ck (proj1 B1) x B2).
+    - apply in_rev in B. apply HU. destruct unassigned; [destruct B|right; exact B]. }
+  destruct (existsb (fun ck : cand * loc => set_eqb cg (cmem (fst ck))) cc); [inversion H; subst; exact HG|].
+  destruct (1 <? set_size cg); inversion H; subst; [|exact HG].
+  apply allin_app; [exact HG|]. intros g x Hg Hx. destruct Hg as [Hg|[]]. subst g. exact (Hcg x Hx).
+Qed.
+
+Lemma find_interleaved_allin : forall P clusters cands w groups un,
+  find_interleaved clusters cands w = Ok (groups, un) ->
+  incl clusters P -> (forall c, In c cands -> incl (cmem c) P) -> allin P groups /\ incl un clusters.
+Proof.
+  intros P clusters cands w groups un H HCl HCa. unfold find_interleaved in H. cbv zeta in H.
+  destruct (with_cores w cands) as [cc|k] eqn:Ecc; cbn [bind] in H; [|discriminate H].
+  assert (Hcc : forall ck, In ck cc -> incl (cmem (fst ck)) P).
+  { intros ck Hck. apply HCa. exact (with_cores_In _ _ _ Ecc ck Hck). }
+  match type of H with bind ?e _ = _ => destruct e as [[found3 groups3]|k] eqn:EF end; cbn [bind] in H; [|discriminate H].
+  inversion H; subst; clear H. split.
+  - apply merge_sets_allin. refine (find_cross_allin P _ _ _ _ _ _ EF _ _ Hcc).
+    + apply allin_app; [apply allin_app|].
+      * intros g x Hg Hx. unfold find_interleaved_candidates in Hg. apply in_map_iff in Hg.
+        destruct Hg as [[a b] [He Hab]]. subst g. cbn [fst snd] in Hx.
+        assert (Hin : In a cc /\ In b cc).
+        { apply in_app_or in Hab. destruct Hab as [Hab|Hab].
+          - apply pairs_rel_In in Hab. destruct Hab as [A [B _]]. split; assumption.
+          - destruct cc as [|c1 [|c2 r]]; [destruct Hab|destruct Hab|].
+            destruct (first_last (c1 :: c2 :: r)) as [[f l]|] eqn:Efl; [|destruct Hab].
+            destruct (overlap (snd f) (snd l)); [|destruct Hab]. destruct Hab as [Hab|[]]. inversion Hab; subst.
+            exact (first_last_In _ _ _ _ Efl). }
+        apply in_app_or in Hx. destruct Hx as [Hx|Hx]; [exact (Hcc a (proj1 Hin) x Hx)|exact (Hcc b (proj2 Hin) x Hx)].
+      * apply pair_groups_allin. intros a b Hab. apply core_pairs_In in Hab. destruct Hab as [A B].
+        apply sort_by_in in A. apply sort_by_in in B. split; apply HCl; assumption.
+      * intros g x Hg Hx. apply in_map_iff in Hg. destruct Hg as [[ck cl] [He Hh]]. subst g. cbn [fst snd] in Hx.
+        apply in_flat_map in Hh. destruct Hh as [cl0 [Hcl0 Hh]]. apply in_map_iff in Hh.
+        destruct Hh as [ck0 [He Hck0]]. inversion He; subst. apply cand_scan_In in Hck0. apply In_skipn' in Hck0.
+        apply sort_by_in in Hcl0.
+        apply in_app_or in Hx. destruct Hx as [Hx|[Hx|[]]]; [exact (Hcc ck Hck0 x Hx)|subst x; exact (HCl cl Hcl0)].
+    + intros x Hx. apply sort_by_in in Hx. exact (HCl x Hx).
+  - intros x Hx. apply sort_by_in in Hx. apply In_iter in Hx. apply In_diff in Hx. exact Hx.
+Qed.
+
+(* ---------- _find_neighbouring ---------- *)
+Lemma find_neighbouring_allin : forall P singles cands,
+  incl singles P -> (forall c, In c cands -> incl (cmem c) P) -> allin P (find_neighbouring singles cands).
+Proof.
+  intros P singles cands HS HC. unfold find_neighbouring. cbv zeta. apply merge_sets_allin.
+  assert (HU : forall x, In x (iter (diff singles (map snd
+             (flat_map (fun s => map (fun c => (c, s))
+                (cand_scan_plain (fun c => overlap (ploc s) (cloc c)) (lend (ploc s))
+                   (skipn (window_index_plain cands s) cands ++ firstn 1 cands))) singles)))) -> In x P).
+  { intros x Hx. apply In_iter in Hx. apply In_diff in Hx. exact (HS x Hx). }
+  apply allin_app; [apply allin_app; [apply allin_app|]|].
+  - intros g x Hg Hx. unfold find_neighbouring_candidates in Hg. apply in_map_iff in Hg.
+    destruct Hg as [[a b] [He Hab]]. subst g. cbn [fst snd] in Hx. apply pairs_rel_In in Hab. destruct Hab as [A [B _]].
+    apply In_union in Hx. destruct Hx as [Hx|Hx]; [exact (HC a A x Hx)|exact (HC b B x Hx)].
+  - intros g x Hg Hx. apply in_map_iff in Hg. destruct Hg as [[c s] [He Hh]]. subst g. cbn [fst snd] in Hx.
+    apply in_flat_map in Hh. destruct Hh as [s0 [Hs0 Hh]]. apply in_map_iff in Hh. destruct Hh as [c0 [He Hc0]].
+    inversion He; subst. apply cand_scan_plain_In in Hc0.
+    assert (Hc : In c cands).
+    { apply in_app_or in Hc0. destruct Hc0 as [A|A]; [exact (In_skipn' _ _ _ _ A)|exact (In_firstn' _ _ _ _ A)]. }
+    apply In_union in Hx. destruct Hx as [Hx|[Hx|[]]]; [exact (HC c Hc x Hx)|subst x; exact (HS s Hs0)].
+  - intros g x Hg Hx. apply in_flat_map in Hg. destruct Hg as [c [Hc Hg]].
+    match type of Hg with In g (match ?f with _ => _ end) => destruct f as [|s r] eqn:Ef end; [destruct Hg|].
+    destruct Hg as [Hg|[]]. subst g.
+    assert (Hcc : In c cands).
+    { match type of Hc with In c (if ?b then _ else _) => destruct b end; [destruct Hc|].
+      apply in_app_or in Hc. destruct Hc as [Hc|Hc].
+      - destruct cands as [|c0 r0]; [destruct Hc|]. destruct (bridges (cloc c0)); [|destruct Hc].
+        destruct Hc as [Hc|[]]. subst. left. reflexivity.
+      - destruct cands as [|c0 [|c1 r1]]; [destruct Hc|destruct Hc|].
+        destruct (last_opt (c0 :: c1 :: r1)) as [cl|] eqn:El; [|destruct Hc].
+        destruct (bridges (cloc cl)); [|destruct Hc]. destruct Hc as [Hc|[]]. subst. exact (last_opt_In _ _ _ El). }
+    apply in_app_or in Hx. destruct Hx as [Hx|[Hx|[]]]; [exact (HC c Hcc x Hx)|]. subst x.
+    assert (Hs : In s (s :: r)) by (left; reflexivity). rewrite <- Ef in Hs. apply filter_In in Hs.
+    exact (HU s (proj1 Hs)).
+  - unfold find_neighbouring_protoclusters. apply pair_groups_allin. intros a b Hab.
+    assert (Hin : forall y, In y (sort_by lt_pp (iter (diff singles (map snd
+             (flat_map (fun s => map (fun c => (c, s))
+                (cand_scan_plain (fun c => overlap (ploc s) (cloc c)) (lend (ploc s))
+                   (skipn (window_index_plain cands s) cands ++ firstn 1 cands))) singles))))) -> In y P).
+    { intros y Hy. apply sort_by_in in Hy. exact (HU y Hy). }
+    apply in_app_or in Hab. destruct Hab as [Hab|Hab].
+    + apply pairs_rel_In in Hab. destruct Hab as [A [B _]]. split; apply Hin; assumption.
+    + match type of Hab with In _ (match ?l with _ => _ end) => destruct l as [|p1 [|p2 r]] eqn:El end;
+        [destruct Hab|destruct Hab|].
+      destruct (first_last (p1 :: p2 :: r)) as [[f l]|] eqn:Efl; [|destruct Hab].
+      destruct (negb (pid f =? pid l) && overlap (ploc f) (ploc l)); [|destruct Hab].
+      destruct Hab as [Hab|[]]. inversion Hab; subst. apply first_last_In in Efl.
+      split; apply Hin; tauto.
+Qed.
+
+(* ---------- the final singles and the whole formation ---------- *)
+Lemma singles_go_good : forall P w existing l ss, singles_go w existing l = Ok ss -> incl l P ->
+  forall c, In c ss -> good P w c /\ ckind c = K_SINGLE /\ exists p, cmem c = [p] /\ In p l.
+Proof.
+  intros P w existing. induction l as [|q r IH]; intros ss H HL c Hc; cbn [singles_go] in H.
+  - inversion H; subst. destruct Hc.
+  - assert (HR : incl r P) by (intros x Hx; apply HL; right; exact Hx).
+    destruct (match tget (fstart (ploc q), fend (ploc q)) existing with
+              | Some ex => pmem q (cmem ex) | None => false end).
+    + destruct (IH ss H HR c Hc) as [A [B [p [C D]]]]. split; [exact A|]. split; [exact B|]. exists p. split; [exact C|right; exact D].
+    + destruct (mk_cand w K_SINGLE [q]) as [c0|k] eqn:Ec; cbn [bind] in H; [|discriminate H].
+      destruct (singles_go w existing r) as [cs|k] eqn:Er; cbn [bind] in H; [|discriminate H].
+      inversion H; subst ss. destruct Hc as [Hc|Hc].
+      * subst c0. destruct (mk_cand_wfc _ _ _ _ Ec) as [A [B C]]. split; [split; [exact A|]|].
+        -- rewrite B. intros x [Hx|[]]. subst x. apply HL. left. reflexivity.
+        -- split; [exact C|]. exists q. split; [exact B|left; reflexivity].
+      * destruct (IH cs eq_refl HR c Hc) as [A [B [p [C D]]]]. split; [exact A|]. split; [exact B|].
+        exists p. split; [exact C|right; exact D].
+Qed.
+
+Lemma formation_body_good : forall protos w cands, formation_body protos w = Ok cands ->
+  forall c, In c cands -> good protos w c.
+Proof.
+  intros protos w cands H. unfold formation_body in H. cbv zeta in H.
+  destruct (find_hybrids (sort_by lt_pp protos) w) as [[hg un1]|k] eqn:E1; cbn [bind] in H; [|discriminate H].
+  destruct (find_hybrids_allin _ _ _ _ E1) as [A1 B1].
+  assert (HP : incl (sort_by lt_pp protos) protos) by (intros x Hx; apply sort_by_in in Hx; exact Hx).
+  assert (A1' : allin protos hg) by (intros g x Hg Hx; exact (HP x (A1 g x Hg Hx))).
+  assert (B1' : incl un1 protos) by (intros x Hx; exact (HP x (B1 x Hx))).
+  destruct (build_candidates w K_HYBRID hg [] []) as [[[c1 e1] s1]|k] eqn:E2; cbn [bind] in H; [|discriminate H].
+  destruct (build_candidates_good protos _ _ _ _ _ _ _ _ E2 A1') as [G1 [T1 S1]];
+    [intros c []|intros x []|].
+  destruct (find_interleaved un1 c1 w) as [[ig un2]|k] eqn:E3; cbn [bind] in H; [|discriminate H].
+  destruct (find_interleaved_allin protos _ _ _ _ _ E3 B1') as [A3 B3]; [intros c Hc; exact (proj2 (G1 c Hc))|].
+  assert (B3' : incl un2 protos) by (intros x Hx; exact (B1' x (B3 x Hx))).
+  destruct (build_candidates w K_INTERLEAVED ig e1 s1) as [[[c2 e2] s2]|k] eqn:E4; cbn [bind] in H; [|discriminate H].
+  destruct (build_candidates_good protos _ _ _ _ _ _ _ _ E4 A3 T1 S1) as [G2 [T2 S2]].
+  destruct (build_candidates w K_NEIGHBOURING (find_neighbouring un2 c2) e2 s2) as [[[c3 e3] s3]|k] eqn:E5;
+    cbn [bind] in H; [|discriminate H].
+  assert (A5 : allin protos (find_neighbouring un2 c2)).
+  { apply find_neighbouring_allin; [exact B3'|intros c Hc; exact (proj2 (G2 c Hc))]. }
+  destruct (build_candidates_good protos _ _ _ _ _ _ _ _ E5 A5 T2 S2) as [G3 [T3 S3]].
+  destruct (singles_go w e3 (iter (un2 ++ s3))) as [ss|k] eqn:E6; cbn [bind] in H; [|discriminate H].
+  inversion H; subst; clear H. intros c Hc. apply in_app_or in Hc. destruct Hc as [Hc|Hc]; [exact (G3 c Hc)|].
+  refine (proj1 (singles_go_good protos _ _ _ _ E6 _ c Hc)).
+  intros x Hx. apply In_iter in Hx. apply in_app_or in Hx. destruct Hx as [Hx|Hx]; [exact (B3' x Hx)|exact (S3 x Hx)].
+Qed.
+
+Lemma create_candidates_good : forall protos w out, create_candidates protos w = Ok out ->
+  forall c, In c out -> good protos w c.
+Proof.
+  intros protos w out H c Hc. unfold create_candidates in H. destruct protos as [|p ps]; [inversion H; subst; destruct Hc|].
+  destruct (formation_body (p :: ps) w) as [cands|k] eqn:E; cbn [bind] in H; [|discriminate H].
+  destruct (negb (assigned_count cands =? zlen (p :: ps))); [discriminate H|]. inversion H; subst.
+  apply sort_by_in in Hc. exact (formation_body_good _ _ _ E c Hc).
+Qed.
+
+(* ---------- the three clauses for create_candidates ---------- *)
+Lemma members_from_input : forall protos w out, create_candidates protos w = Ok out ->
+  forall c, In c out -> cmem c <> [] /\ forall p, In p (cmem c) -> In p protos.
+Proof.
+  intros protos w out H c Hc. destruct (create_candidates_good _ _ _ H c Hc) as [[A _] B]. split; [exact A|exact B].
+Qed.
+
+Lemma location_is_connect : forall protos w out, create_candidates protos w = Ok out ->
+  forall c, In c out -> connect_locations (map ploc (cmem c)) w = Ok (cloc c).
+Proof. intros protos w out H c Hc. exact (proj2 (proj1 (create_candidates_good _ _ _ H c Hc))). Qed.
+
+(* iteration of a set: strictly ascending ids *)
+Fixpoint asc (l : list Z) : Prop :=
+  match l with [] => True | x :: r => (forall y, In y r -> x < y) /\ asc r end.
+
+Lemma asc_set_insert : forall x l, asc (map pid l) -> asc (map pid (set_insert x l)).
+Proof.
+  intros x. induction l as [|y ys IH]; intro H; cbn [set_insert].
+  - cbn. split; [intros z []|exact I].
+  - cbn [map asc] in H. destruct H as [H1 H2]. destruct (pid x <? pid y) eqn:E1.
+    + cbn [map asc]. split; [|split; assumption]. intros z [Hz|Hz]; [subst z; lia|]. specialize (H1 z Hz). lia.
+    + destruct (pid x =? pid y) eqn:E2; [cbn [map asc]; split; assumption|].
+      cbn [map asc]. split; [|exact (IH H2)]. intros z Hz.
+      apply (proj1 (inS_set_insert z x ys)) in Hz. destruct Hz as [Hz|Hz]; [subst z; lia|exact (H1 z Hz)].
+Qed.
+
+Lemma asc_iter : forall l, asc (map pid (iter l)).
+Proof. unfold iter. induction l as [|x xs IH]; cbn [fold_right]; [exact I|]. apply asc_set_insert. exact IH. Qed.
+
+Lemma asc_NoDup : forall l, asc l -> NoDup l.
+Proof.
+  induction l as [|x r IH]; intro H; [constructor|]. destruct H as [H1 H2]. constructor; [|exact (IH H2)].
+  intro Hx. specialize (H1 x Hx). lia.
+Qed.
+
+Lemma inS_concat : forall i (cands : list cand), inS i (concat (map cmem cands)) -> exists c, In c cands /\ inS i (cmem c).
+Proof.
+  intros i. induction cands as [|c r IH]; cbn [map concat]; intro H; [destruct H|].
+  unfold inS in H. rewrite map_app in H. apply in_app_or in H. destruct H as [H|H].
+  - exists c. split; [left; reflexivity|exact H].
+  - destruct (IH H) as [c' [A B]]. exists c'. split; [right; exact A|exact B].
+Qed.
+
+(* every protocluster is a member of a candidate: the code's final assertion (as many distinct members as
+   protoclusters) together with "every member was supplied" leaves no protocluster out *)
+Lemma every_proto_covered : forall protos w out, create_candidates protos w = Ok out ->
+  forall p, In p protos -> exists c, In c out /\ inS (pid p) (cmem c).
+Proof.
+  intros protos w out H p Hp. unfold create_candidates in H. destruct protos as [|p0 ps0]; [destruct Hp|].
+  set (protos := p0 :: ps0) in *.
+  destruct (formation_body protos w) as [cands|k] eqn:E; cbn [bind] in H; [|discriminate H].
+  destruct (negb (assigned_count cands =? zlen protos)) eqn:Ea; [discriminate H|]. inversion H; subst out; clear H.
+  apply negb_false_iff in Ea. apply Z.eqb_eq in Ea. unfold assigned_count, set_size, zlen in Ea.
+  apply Nat2Z.inj in Ea.
+  set (M := concat (map cmem cands)) in *.
+  assert (Hincl : incl (map pid (iter M)) (map pid protos)).
+  { intros i Hi. apply in_map_iff in Hi. destruct Hi as [x [Hx Hin]]. subst i. apply In_iter in Hin.
+    unfold M in Hin. apply in_concat in Hin. destruct Hin as [g [Hg Hxg]]. apply in_map_iff in Hg.
+    destruct Hg as [c [Hc Hcc]]. subst g. apply in_map. exact (proj2 (formation_body_good _ _ _ E c Hcc) x Hxg). }
+  assert (Hrev : incl (map pid protos) (map pid (iter M))).
+  { apply NoDup_length_incl; [apply asc_NoDup; apply asc_iter| |exact Hincl]. rewrite !map_length. lia. }
+  assert (Hi : inS (pid p) M).
+  { apply inS_iter. apply Hrev. apply in_map. exact Hp. }
+  apply inS_concat in Hi. destruct Hi as [c [Hc Hic]]. exists c. split; [apply sort_by_in; exact Hc|exact Hic].
+Qed.
+
+Lemma NoDup_map_inj : forall (l : list proto) x y, NoDup (map pid l) -> In x l -> In y l -> pid x = pid y -> x = y.
+Proof.
+  induction l as [|a r IH]; intros x y Hnd Hx Hy He; [destruct Hx|]. cbn [map] in Hnd. inversion Hnd as [|? ? Hn Hr]; subst.
+  destruct Hx as [Hx|Hx]; destruct Hy as [Hy|Hy].
+  - subst. reflexivity.
+  - subst a. exfalso. apply Hn. rewrite He. apply in_map. exact Hy.
+  - subst a. exfalso. apply Hn. rewrite <- He. apply in_map. exact Hx.
+  - exact (IH x y Hr Hx Hy He).
+Qed.
+
+Lemma every_proto_covered_strong : forall protos w out, create_candidates protos w = Ok out ->
+  NoDup (map pid protos) -> forall p, In p protos -> exists c, In c out /\ In p (cmem c).
+Proof.
+  intros protos w out H Hnd p Hp. destruct (every_proto_covered _ _ _ H p Hp) as [c [Hc Hi]].
+  exists c. split; [exact Hc|]. unfold inS in Hi. apply in_map_iff in Hi. destruct Hi as [x [Hx Hin]].
+  pose proof (proj2 (members_from_input _ _ _ H c Hc) x Hin) as Hxp.
+  rewrite <- (NoDup_map_inj protos x p Hnd Hxp Hp Hx). exact Hin.
+Qed.
+
+(* ---------- linear records: the location is the exact span of the members ---------- *)
+Lemma location_linear : forall protos out, create_candidates protos None = Ok out ->
+  (forall p, In p protos -> exists q, ploc p = [q] /\ ps q < pe q) ->
+  forall c, In c out -> exists h, cloc c = [h] /\
+    (forall p x, In p (cmem c) -> ASV.C04.Proofs.base_of (ploc p) x -> ps h <= x < pe h) /\
+    (exists p q, In p (cmem c) /\ ploc p = [q] /\ ps q = ps h) /\
+    (exists p q, In p (cmem c) /\ ploc p = [q] /\ pe q = pe h).
+Proof.
+  intros protos out H Hs c Hc. destruct (create_candidates_good _ _ _ H c Hc) as [[Hne Hcon] Hin].
+  set (locs := map ploc (cmem c)) in *.
+  assert (Hsimple : ASV.C04.Proofs.simple_locs locs).
+  { unfold ASV.C04.Proofs.simple_locs. apply Forall_forall. intros l Hl. unfold locs in Hl. apply in_map_iff in Hl.
+    destruct Hl as [p [He Hp]]. subst l. destruct (Hs p (Hin p Hp)) as [q [Hq _]]. exists q. exact Hq. }
+  assert (Hwf : Forall ASV.C04.Proofs.wf_loc locs).
+  { apply Forall_forall. intros l Hl. unfold locs in Hl. apply in_map_iff in Hl.
+    destruct Hl as [p [He Hp]]. subst l. destruct (Hs p (Hin p Hp)) as [q [Hq Hlt]]. rewrite Hq.
+    split; [discriminate|]. constructor; [exact Hlt|constructor]. }
+  assert (Hlne : locs <> []).
+  { unfold locs. destruct (cmem c); [exfalso; apply Hne; reflexivity|discriminate]. }
+  destruct (ASV.C04.Proofs.connect_line_simple locs Hlne Hsimple Hwf) as [h [Hh [Hps [Hpe _]]]].
+  rewrite Hcon in Hh. inversion Hh as [Hcl]. exists h. split; [exact Hcl|]. split; [|split].
+  - intros p x Hp Hb. apply (ASV.C04.Proofs.hull_covers locs h Hsimple Hps Hpe (ploc p) x); [|exact Hb].
+    unfold locs. apply in_map. exact Hp.
+  - destruct (ASV.C04.Proofs.hull_tight locs h Hlne Hsimple Hps Hpe) as [[l [q [Hl [Hlq Hq]]]] _].
+    unfold locs in Hl. apply in_map_iff in Hl. destruct Hl as [p [He Hp]]. exists p, q. subst l.
+    split; [exact Hp|split; [exact Hlq|exact Hq]].
+  - destruct (ASV.C04.Proofs.hull_tight locs h Hlne Hsimple Hps Hpe) as [_ [l [q [Hl [Hlq Hq]]]]].
+    unfold locs in Hl. apply in_map_iff in Hl. destruct Hl as [p [He Hp]]. exists p, q. subst l.
+    split; [exact Hp|split; [exact Hlq|exact Hq]].
+Qed.
+
+(* ---------- _merge_sets does not depend on the order (or multiplicity) of the supplied sets ---------- *)
+Lemma FOP_In_cases : forall A (R : A -> A -> Prop) l a b,
+  ForallOrdPairs R l -> In a l -> In b l -> a = b \/ R a b \/ R b a.
+Proof.
+  intros A R l a b H. induction H as [|x l Hx Hl IH]; intros Ha Hb; [destruct Ha|].
+  rewrite Forall_forall in Hx. destruct Ha as [Ha|Ha]; destruct Hb as [Hb|Hb].
+  - left. congruence.
+  - subst a. right. left. exact (Hx b Hb).
+  - subst b. right. right. exact (Hx a Ha).
+  - exact (IH Ha Hb).
+Qed.
+
+Lemma disjoint_false_witness : forall a b, disjoint a b = false -> exists i, inS i a /\ inS i b.
+Proof.
+  intros a b H. unfold disjoint in H. apply negb_false_iff in H. apply existsb_exists in H.
+  destruct H as [x [Hx Hm]]. exists (pid x). split; [apply in_map; exact Hx|apply pmem_inS; exact Hm].
+Qed.
+
+Lemma built_in_component : forall G out,
+  (forall g, In g G -> g <> [] -> exists h, In h out /\ subsetP g h) ->
+  ForallOrdPairs disjointP out ->
+  forall s, built G s -> s = [] \/ exists h, In h out /\ subsetP s h.
+Proof.
+  intros G out HS HD s Hb. induction Hb as [g Hg|a b Ha IHa Hb IHb Hd].
+  - destruct g as [|x g']; [left; reflexivity|right]. apply HS; [exact Hg|discriminate].
+  - right. destruct (disjoint_false_witness _ _ Hd) as [i [Hia Hib]].
+    destruct IHa as [Ea|[ha [Hha Hsa]]]; [subst a; apply inS_nil in Hia; contradiction|].
+    destruct IHb as [Eb|[hb [Hhb Hsb]]]; [subst b; apply inS_nil in Hib; contradiction|].
+    destruct (FOP_In_cases _ _ _ ha hb HD Hha Hhb) as [E|[E|E]].
+    + subst hb. exists ha. split; [exact Hha|]. intros j Hj. apply inS_union in Hj. destruct Hj; [apply Hsa|apply Hsb]; assumption.
+    + exfalso. exact (E i (Hsa i Hia) (Hsb i Hib)).
+    + exfalso. exact (E i (Hsb i Hib) (Hsa i Hia)).
+Qed.
+
+Lemma merge_sets_order_independent : forall G G', (forall g, In g G <-> In g G') ->
+  forall h, In h (merge_sets G) -> exists h', In h' (merge_sets G') /\ forall i, inS i h <-> inS i h'.
+Proof.
+  intros G G' HGG h Hh.
+  pose proof (merge_sets_components G) as C. cbv zeta in C. destruct C as [_ [HD [HS [HB HN]]]].
+  pose proof (merge_sets_components G') as C'. cbv zeta in C'. destruct C' as [_ [HD' [HS' [HB' _]]]].
+  rewrite Forall_forall in HB, HB', HN.
+  destruct (HB h Hh) as [h0 [Hb0 He0]].
+  assert (Hx : exists x, inS x h).
+  { destruct h as [|x h']; [exfalso; exact (HN [] Hh eq_refl)|]. exists (pid x). left. reflexivity. }
+  destruct Hx as [x Hx].
+  assert (Hb0' : built G' h0) by (apply (built_weaken G G'); [intros g Hg; apply HGG; exact Hg|exact Hb0]).
+  destruct (built_in_component G' _ HS' HD' h0 Hb0') as [E|[h' [Hh' Hsub]]].
+  { subst h0. apply He0 in Hx. apply inS_nil in Hx. contradiction. }
+  exists h'. split; [exact Hh'|].
+  destruct (HB' h' Hh') as [h0' [HbA He0']].
+  assert (Hb0'' : built G h0') by (apply (built_weaken G' G); [intros g Hg; apply HGG; exact Hg|exact HbA]).
+  destruct (built_in_component G _ HS HD h0' Hb0'') as [E|[h2 [Hh2 Hsub2]]].
+  { subst h0'. assert (Hx' : inS x h') by (apply Hsub; apply He0; exact Hx). apply He0' in Hx'. apply inS_nil in Hx'. contradiction. }
+  assert (Hx2 : inS x h2) by (apply Hsub2; apply He0'; apply Hsub; apply He0; exact Hx).
+  destruct (FOP_In_cases _ _ _ h h2 HD Hh Hh2) as [E|[E|E]].
+  - subst h2. intro i. split; [intro Hi; apply Hsub; apply He0; exact Hi|intro Hi; apply Hsub2; apply He0'; exact Hi].
+  - exfalso. exact (E x Hx Hx2).
+  - exfalso. exact (E x Hx2 Hx).
+Qed.
+
+Lemma merge_sets_perm : forall G G', Permutation G G' ->
+  forall h, In h (merge_sets G) -> exists h', In h' (merge_sets G') /\ forall i, inS i h <-> inS i h'.
+Proof.
+  intros G G' HP. apply merge_sets_order_independent. intro g. split; apply Permutation_in; [exact HP|apply Permutation_sym; exact HP].
+Qed.
+
+(* ---------- chemical hybrids: the sets handed to _merge_sets are exactly the pairs sharing a defining gene ---------- *)
+Definition hybrid_pair_groups (clusters : list proto) : list (list proto) :=
+  let sorted_c := sort_by core_key_lt clusters in
+  map (fun xy => [fst xy; snd xy])
+      (pairs_rel defs_intersect sorted_c ++
+       match first_last sorted_c with
+       | Some (f, l) => if negb (pid f =? pid l) && defs_intersect f l then [(f, l)] else []
+       | None => []
+       end).
+
+Lemma find_hybrids_shape : forall clusters w groups un, find_hybrids clusters w = Ok (groups, un) ->
+  exists extended,
+    mapM (hybrid_extend w (sort_by core_start_lt (iter (diff clusters (concat (hybrid_pair_groups clusters))))))
+         (merge_sets (hybrid_pair_groups clusters)) = Ok extended /\ groups = map ordered_list extended.
+Proof.
+  intros clusters w groups un H. unfold find_hybrids in H. cbv zeta in H.
+  match type of H with bind ?e _ = _ => destruct e as [extended|k] eqn:EM end; cbn [bind] in H; [|discriminate H].
+  inversion H; subst; clear H. exists extended. split; [exact EM|reflexivity].
+Qed.
+
+Lemma pair_group_spec : forall clusters g, In g (hybrid_pair_groups clusters) ->
+  exists x y, g = [x; y] /\ In x clusters /\ In y clusters /\ defs_intersect x y = true.
+Proof.
+  intros clusters g Hg. unfold hybrid_pair_groups in Hg. cbv zeta in Hg. apply in_map_iff in Hg.
+  destruct Hg as [[x y] [He Hxy]]. subst g. exists x, y. split; [reflexivity|].
+  apply in_app_or in Hxy. destruct Hxy as [Hxy|Hxy].
+  - apply pairs_rel_In in Hxy. destruct Hxy as [A [B C]]. apply sort_by_in in A. apply sort_by_in in B. tauto.
+  - destruct (first_last (sort_by core_key_lt clusters)) as [[f l]|] eqn:Efl; [|destruct Hxy].
+    destruct (negb (pid f =? pid l) && defs_intersect f l) eqn:Ec; [|destruct Hxy].
+    destruct Hxy as [Hxy|[]]. inversion Hxy; subst. apply first_last_In in Efl. destruct Efl as [A B].
+    apply sort_by_in in A. apply sort_by_in in B. apply andb_true_iff in Ec. tauto.
+Qed.
+
+Lemma pairs_rel_complete : forall A (rel : A -> A -> bool) l1 x l2 y l3,
+  rel x y = true -> In (x, y) (pairs_rel rel (l1 ++ x :: l2 ++ y :: l3)).
+Proof.
+  intros A rel. induction l1 as [|a r IH]; intros x l2 y l3 H; cbn [app pairs_rel]; apply in_or_app.
+  - left. apply in_map. apply filter_In. split; [apply in_or_app; right; left; reflexivity|exact H].
+  - right. exact (IH x l2 y l3 H).
+Qed.
+
+Lemma In_two_split : forall A (l : list A) a b, a <> b -> In a l -> In b l ->
+  (exists l1 l2 l3, l = l1 ++ a :: l2 ++ b :: l3) \/ (exists l1 l2 l3, l = l1 ++ b :: l2 ++ a :: l3).
+Proof.
+  intros A l a b Hne Ha Hb. apply in_split in Ha. destruct Ha as [l1 [r He]]. subst l.
+  apply in_app_or in Hb. destruct Hb as [Hb|[Hb|Hb]].
+  - right. apply in_split in Hb. destruct Hb as [m1 [m2 He]]. subst l1. exists m1, m2, r.
+    rewrite <- app_assoc. reflexivity.
+  - exfalso. exact (Hne Hb).
+  - left. apply in_split in Hb. destruct Hb as [m1 [m2 He]]. subst r. exists l1, m1, m2. reflexivity.
+Qed.
+
+Lemma zmem_In : forall x l, zmem x l = true <-> In x l.
+Proof.
+  intros x l. unfold zmem. rewrite existsb_exists. split.
+  - intros [y [Hy He]]. apply Z.eqb_eq in He. subst y. exact Hy.
+  - intro H. exists x. split; [exact H|apply Z.eqb_refl].
+Qed.
+
+Lemma defs_intersect_sym : forall a b, defs_intersect a b = true -> defs_intersect b a = true.
+Proof.
+  intros a b H. unfold defs_intersect in *. apply existsb_exists in H. destruct H as [g [Hg Hm]].
+  apply zmem_In in Hm. apply existsb_exists. exists g. split; [exact Hm|apply zmem_In; exact Hg].
+Qed.
+
+Lemma mapM_In_fwd : forall A B (f : A -> res B) l r, mapM f l = Ok r ->
+  forall x, In x l -> exists y, In y r /\ f x = Ok y.
+Proof.
+  intros A B f. induction l as [|a l IH]; intros r H x Hx; cbn [mapM] in H; [destruct Hx|].
+  destruct (f a) as [b|k] eqn:Ea; cbn [bind] in H; [|discriminate H].
+  destruct (mapM f l) as [bs|k] eqn:El; cbn [bind] in H; [|discriminate H].
+  inversion H; subst. destruct Hx as [Hx|Hx].
+  - subst. exists b. split; [left; reflexivity|exact Ea].
+  - destruct (IH bs eq_refl x Hx) as [y [Hy Hf]]. exists y. split; [right; exact Hy|exact Hf].
+Qed.
+
+Lemma contained_until_spec : forall core limit cl x, In x (contained_until core limit cl) -> contains core (pcore x) = true.
+Proof.
+  intros core limit. induction cl as [|c r IH]; intros x H; cbn [contained_until] in H; [destruct H|].
+  destruct (limit <? lstart (ploc c)); [destruct H|].
+  destruct (contains core (pcore c)) eqn:E.
+  - destruct H as [H|H]; [subst; exact E|exact (IH x H)].
+  - exact (IH x H).
+Qed.
+
+Lemma hybrid_extend_spec : forall w clusters group r, hybrid_extend w clusters group = Ok r ->
+  exists core extra, connect_locations (map pcore group) w = Ok core /\ r = group ++ extra /\
+    forall x, In x extra -> In x clusters /\ contains core (pcore x) = true.
+Proof.
+  intros w clusters group r H. unfold hybrid_extend in H.
+  destruct (connect_locations (map pcore group) w) as [core|k]; cbn [bind] in H; [|discriminate H].
+  inversion H; subst; clear H. eexists. eexists. split; [reflexivity|]. split; [reflexivity|].
+  intros x Hx. apply in_app_or in Hx. destruct Hx as [Hx|Hx].
+  - split; [apply contained_until_In in Hx; apply In_skipn' in Hx; exact Hx|exact (contained_until_spec _ _ _ _ Hx)].
+  - destruct (is_compound core); [|destruct Hx].
+    split; [apply contained_until_In in Hx; exact Hx|exact (contained_until_spec _ _ _ _ Hx)].
+Qed.
+
+(* completeness: two supplied protoclusters that share a defining gene are in the same hybrid group *)
+Lemma hybrids_complete : forall clusters w groups un, find_hybrids clusters w = Ok (groups, un) ->
+  forall a b, In a clusters -> In b clusters -> a <> b -> defs_intersect a b = true ->
+  exists g, In g groups /\ inS (pid a) g /\ inS (pid b) g.
+Proof.
+  intros clusters w groups un H a b Ha Hb Hne Hd. destruct (find_hybrids_shape _ _ _ _ H) as [extended [EM Hg]].
+  assert (Hpair : exists pr, In pr (hybrid_pair_groups clusters) /\ inS (pid a) pr /\ inS (pid b) pr /\ pr <> []).
+  { apply (sort_by_in _ core_key_lt) in Ha. apply (sort_by_in _ core_key_lt) in Hb.
+    unfold hybrid_pair_groups. cbv zeta.
+    destruct (In_two_split _ _ a b Hne Ha Hb) as [[l1 [l2 [l3 E]]]|[l1 [l2 [l3 E]]]].
+    - exists [a; b]. split; [|split; [left; reflexivity|split; [right; left; reflexivity|discriminate]]].
+      apply in_map_iff. exists (a, b). split; [reflexivity|]. apply in_or_app. left. rewrite E.
+      apply pairs_rel_complete. exact Hd.
+    - exists [b; a]. split; [|split; [right; left; reflexivity|split; [left; reflexivity|discriminate]]].
+      apply in_map_iff. exists (b, a). split; [reflexivity|]. apply in_or_app. left. rewrite E.
+      apply pairs_rel_complete. apply defs_intersect_sym. exact Hd. }
+  destruct Hpair as [pr [Hpr [Hia [Hib Hprne]]]].
+  pose proof (merge_sets_components (hybrid_pair_groups clusters)) as C. cbv zeta in C. destruct C as [_ [_ [HS _]]].
+  destruct (HS pr Hpr Hprne) as [h [Hh Hsub]].
+  destruct (mapM_In_fwd _ _ _ _ _ EM h Hh) as [e [He Hext]].
+  destruct (hybrid_extend_spec _ _ _ _ Hext) as [core [extra [_ [Er _]]]].
+  exists (ordered_list e). split; [subst groups; apply in_map; exact He|].
+  assert (Hin : forall i, inS i h -> inS i (ordered_list e)).
+  { intros i Hi. unfold ordered_list. rewrite !inS_sort_by. subst e. unfold inS. rewrite map_app. apply in_or_app. left. exact Hi. }
+  split; apply Hin; apply Hsub; assumption.
+Qed.
+
+(* soundness: every member of a hybrid group belongs to one component of the sharing relation, or its core
+   lies inside that component's joint core and it shares a defining gene with nobody *)
+Lemma hybrids_sound : forall clusters w groups un, find_hybrids clusters w = Ok (groups, un) ->
+  forall g, In g groups -> exists m core, In m (merge_sets (hybrid_pair_groups clusters)) /\
+    connect_locations (map pcore m) w = Ok core /\
+    (forall x, In x m -> In x g) /\
+    forall x, In x g -> In x m \/
+      (In x clusters /\ contains core (pcore x) = true /\ pmem x (concat (hybrid_pair_groups clusters)) = false).
+Proof.
+  intros clusters w groups un H g Hg. destruct (find_hybrids_shape _ _ _ _ H) as [extended [EM Hgs]]. subst groups.
+  apply in_map_iff in Hg. destruct Hg as [e [He Hin]]. subst g.
+  destruct (mapM_In _ _ _ _ _ EM e Hin) as [m [Hm Hext]].
+  destruct (hybrid_extend_spec _ _ _ _ Hext) as [core [extra [Hc [Er Hx]]]].
+  exists m, core. split; [exact Hm|]. split; [exact Hc|]. split.
+  - intros x Hxm. apply In_ordered_list. subst e. apply in_or_app. left. exact Hxm.
+  - intros x Hxe. apply (proj1 (In_ordered_list _ _)) in Hxe. subst e. apply in_app_or in Hxe.
+    destruct Hxe as [Hxe|Hxe]; [left; exact Hxe|right]. destruct (Hx x Hxe) as [A B].
+    apply sort_by_in in A. apply In_iter in A. unfold diff in A. apply filter_In in A. destruct A as [A1 A2].
+    split; [exact A1|]. split; [exact B|]. apply negb_true_iff in A2. exact A2.
+Qed.
+
+(* ---------- the table never holds two candidates under the same (start, end) ---------- *)
+Fixpoint keys_distinct (t : table) : Prop :=
+  match t with
+  | [] => True
+  | (k, _) :: r => (forall k' c', In (k', c') r -> key_eqb k k' = false) /\ keys_distinct r
+  end.
+
+Lemma key_eqb_sym : forall a b, key_eqb a b = key_eqb b a.
+Proof. intros a b. unfold key_eqb. rewrite (Z.eqb_sym (fst a)), (Z.eqb_sym (snd a)). reflexivity. Qed.
+
+Lemma tset_In_key : forall k c t k' c', In (k', c') (tset k c t) -> (exists c0, In (k', c0) t) \/ k' = k.
+Proof.
+  intros k c. induction t as [|[k0 c0] r IH]; intros k' c' H; cbn [tset] in H.
+  - destruct H as [H|[]]. inversion H. right. reflexivity.
+  - destruct (key_eqb k k0).
+    + destruct H as [H|H]; [inversion H; subst; left; exists c0; left; reflexivity|left; exists c'; right; exact H].
+    + destruct H as [H|H]; [inversion H; subst; left; exists c'; left; reflexivity|].
+      destruct (IH k' c' H) as [[c1 A]|A]; [left; exists c1; right; exact A|right; exact A].
+Qed.
+
+Lemma tset_keys_distinct : forall k c t, keys_distinct t -> keys_distinct (tset k c t).
+Proof.
+  intros k c. induction t as [|[k0 c0] r IH]; intro H; cbn [tset].
+  - cbn. split; [intros k' c' []|exact I].
+  - cbn [keys_distinct] in H. destruct H as [H1 H2]. destruct (key_eqb k k0) eqn:E.
+    + cbn [keys_distinct]. split; assumption.
+    + cbn [keys_distinct]. split; [|exact (IH H2)]. intros k' c' Hin.
+      destruct (tset_In_key _ _ _ _ _ Hin) as [[c1 A]|A]; [exact (H1 k' c1 A)|]. subst k'. rewrite key_eqb_sym. exact E.
+Qed.
+
+Lemma build_go_keys_distinct : forall w kind groups existing singles e s,
+  build_go w kind groups existing singles = Ok (e, s) -> keys_distinct existing -> keys_distinct e.
+Proof.
+  intros w kind. induction groups as [|group rest IH]; intros existing singles e s H HK; cbn [build_go] in H.
+  - inversion H; subst. exact HK.
+  - destruct (negb ((kind =? K_SINGLE) || (1 <? zlen group))); [discriminate H|].
+    destruct (mk_cand w kind (ordered_list group)) as [candidate|k]; cbn [bind] in H; [|discriminate H].
+    destruct (tget (ckey candidate) existing) as [ex|].
+    + destruct (is_empty (iter (diff group (iter (cmem ex))))); [exact (IH _ _ _ _ H HK)|].
+      destruct (mk_cand w (ckind ex) (ordered_list (iter (cmem ex) ++ iter (diff group (iter (cmem ex))))))
+        as [replacement|k]; cbn [bind] in H; [|discriminate H].
+      apply (IH _ _ _ _ H). apply tset_keys_distinct. exact HK.
+    + apply (IH _ _ _ _ H). apply tset_keys_distinct. exact HK.
+Qed.
+
+(* build_candidates is NOT independent of the order of the groups: when two groups of one call have the same
+   coordinates, the later one is united into the earlier one and only ITS members get an extra single *)
+Definition oi_p (i s e : Z) : proto := mkProto i [mkPart s e 1] [mkPart s e 1] i [].
+Definition oi_g1 : list proto := [oi_p 1 0 50; oi_p 2 10 20].
+Definition oi_g2 : list proto := [oi_p 3 0 50; oi_p 4 30 40].
+Lemma build_candidates_order_dependent :
+  exists c1 e1 s1 c2 e2 s2,
+    build_candidates None K_HYBRID [oi_g1; oi_g2] [] [] = Ok (c1, e1, s1) /\
+    build_candidates None K_HYBRID [oi_g2; oi_g1] [] [] = Ok (c2, e2, s2) /\
+    map pid s1 = [3; 4] /\ map pid s2 = [1; 2].
+Proof.
+  destruct (build_candidates None K_HYBRID [oi_g1; oi_g2] [] []) as [[[c1 e1] s1]|k] eqn:E1; vm_compute in E1; [|discriminate E1].
+  destruct (build_candidates None K_HYBRID [oi_g2; oi_g1] [] []) as [[[c2 e2] s2]|k] eqn:E2; vm_compute in E2; [|discriminate E2].
+  inversion E1; inversion E2; subst. do 6 eexists. split; [reflexivity|]. split; [reflexivity|]. split; vm_compute; reflexivity.
 Qed.
